@@ -157,6 +157,39 @@ func flipMsg(t *rapid.T, msg []byte) (string, []byte) {
 	}
 }
 
+// otherCtx draws a context different from ctx: half of the time a near miss (one bit flipped in the
+// first, the last or a drawn byte; one byte dropped or appended), otherwise an unrelated one.
+func otherCtx(t *rapid.T, ctx string, label string) string {
+	if len(ctx) > 0 && rapid.Bool().Draw(t, label+".near") {
+		b := []byte(ctx)
+		switch rapid.IntRange(0, 4).Draw(t, label+".nk") {
+		case 0:
+			b[len(b)-1] ^= 1 << rapid.IntRange(0, 7).Draw(t, label+".bit")
+		case 1:
+			b[0] ^= 1 << rapid.IntRange(0, 7).Draw(t, label+".bit")
+		case 2:
+			b[rapid.IntRange(0, len(b)-1).Draw(t, label+".pos")] ^= 1 << rapid.IntRange(0, 7).Draw(t, label+".bit")
+		case 3:
+			b = b[:len(b)-1]
+		default:
+			if len(b) < 255 {
+				b = append(b, 0)
+			} else {
+				b[len(b)-1] ^= 0x80
+			}
+		}
+		return string(b)
+	}
+	c2 := drawCtx(t, label)
+	if c2 == ctx {
+		c2 += "x"
+		if len(c2) > 255 {
+			c2 = c2[1:]
+		}
+	}
+	return c2
+}
+
 func drawCtx(t *rapid.T, label string) string {
 	switch rapid.IntRange(0, 5).Draw(t, label+".ck") {
 	case 0:
@@ -247,13 +280,7 @@ func TestC02Schemes(t *testing.T) {
 					if !s.SupportsContext() {
 						return
 					}
-					ctx2 := drawCtx(t, "ctx2")
-					if ctx2 == ctx {
-						ctx2 += "x"
-						if len(ctx2) > 255 {
-							ctx2 = ctx2[1:255]
-						}
-					}
+					ctx2 := otherCtx(t, ctx, "ctx2")
 					if ctx2 == ctx {
 						return
 					}
@@ -470,14 +497,8 @@ func TestC02EdVariants(t *testing.T) {
 					if v.ctxMin < 0 {
 						return
 					}
-					ctx2 := drawCtx(t, "ctx2")
-					if ctx2 == ctx {
-						ctx2 = "z" + ctx
-						if len(ctx2) > 255 {
-							ctx2 = ctx2[:254]
-						}
-					}
-					if ctx2 == ctx {
+					ctx2 := otherCtx(t, ctx, "ctx2")
+					if ctx2 == ctx || len(ctx2) < v.ctxMin {
 						return
 					}
 					expectReject(t, sub, v.name, "other-ctx", func(m, sg []byte) bool { return v.verify(pk, m, sg, ctx2) }, msg, sig, []byte(ctx2))
@@ -620,12 +641,26 @@ func blsCase[K bls.KeyGroup](t *rapid.T, name string, k K) {
 		idPk[0] = 0xc0
 		idSig := make([]byte, len(sig))
 		idSig[0] = 0xc0
+		// decoded into a fresh object or into the object that has just verified a signature (a key
+		// object may be reused: nothing of the previous key may survive, e.g. a cached validation)
 		pk3 := new(bls.PublicKey[K])
+		reused := rapid.Bool().Draw(t, "reuseObject")
+		if reused {
+			pk3 = pk2
+			vlib.Class(sub, "identity-key-into-used-object")
+		}
 		if err := pk3.UnmarshalBinary(idPk); err != nil {
 			vlib.Class(sub, "identity-pk-refused-at-decode")
 			return
 		}
+		if pk3.Validate() {
+			vlib.Report(t, "C02/accepts-altered/bls-"+name+"/identity-key-validates", fmt.Sprintf("the identity public key passes Validate (decoded into a used object: %v)", reused))
+			return
+		}
 		expectReject(t, sub, "bls-"+name, "identity-key", func(mm, sg []byte) bool { return bls.Verify(pk3, mm, sg) }, msg, idSig, ikm)
+		expectReject(t, sub, "bls-"+name, "identity-key-agg", func(mm, sg []byte) bool {
+			return bls.VerifyAggregate([]*bls.PublicKey[K]{pk3}, [][]byte{mm}, sg)
+		}, msg, idSig, ikm)
 	case "agg":
 		n := rapid.IntRange(1, 4).Draw(t, "n")
 		pubs := []*bls.PublicKey[K]{pk}
@@ -678,4 +713,35 @@ func TestC02BLS(t *testing.T) {
 	t.Run("KeyG2SigG1", func(t *testing.T) {
 		vlib.Check(t, vlib.N(40, 300), func(t *rapid.T) { blsCase(t, "KeyG2SigG1", bls.G2{}) })
 	})
+}
+
+// TestC02Volume: honest signatures always verify — a high-volume loop for the schemes whose signing
+// is a rejection loop with rare corner branches (ML-DSA / Dilithium and the hybrids): every signature
+// of a stream of messages under a fixed key must have the advertised size and verify.
+func TestC02Volume(t *testing.T) {
+	defer vlib.Done()
+	for si, s := range schemes.All() {
+		name := s.Name()
+		if !strings.Contains(name, "Dilithium") && !strings.Contains(name, "ML-DSA") {
+			continue
+		}
+		sub := "volume/" + name
+		n := vlib.N(2500, 20000)
+		seed := make([]byte, s.SeedSize())
+		vlib.ExpandInto(seed, uint64(vlib.Seed)*1009+uint64(vlib.Shard)*31+uint64(si))
+		pk, sk := s.DeriveKey(seed)
+		msg := make([]byte, 16)
+		for i := 0; i < n; i++ {
+			vlib.ExpandInto(msg, uint64(vlib.Seed)<<40|uint64(vlib.Shard)<<32|uint64(i))
+			sig := s.Sign(sk, msg, nil)
+			vlib.Eval(sub)
+			if len(sig) != s.SignatureSize() || !s.Verify(pk, msg, sig, nil) {
+				vlib.ReportDirect(t, "C02/completeness/"+name, fmt.Sprintf("honest signature rejected: seed=%x msg=%x", seed, msg),
+					map[string]interface{}{"scheme": name, "seed": fmt.Sprintf("%x", seed), "msg": fmt.Sprintf("%x", msg)})
+				break
+			}
+		}
+		vlib.NonTrivial(sub, "stream", seed)
+		vlib.Sample(sub, "stream", fmt.Sprintf("scheme=%s seed=%x: %d messages signed and verified", name, seed, n))
+	}
 }
